@@ -244,6 +244,9 @@ func (in *Interp) info(fn *ssa.Function) *fnInfo {
 		fi.interpret = true
 	case path == "time" && !timeIntrinsic[fi.name]:
 		fi.interpret = true
+	case path == "sort" && strings.HasSuffix(fn.Name(), "_func"):
+		// the generic sorting algorithms over a lessSwap pair
+		fi.interpret = true
 	}
 	if fn.Synthetic != "" && fn.Blocks != nil && path != svPath {
 		// wrappers and bound-method thunks for any package
